@@ -13,6 +13,7 @@ mod mon;
 mod odom;
 mod rng;
 mod run;
+mod shrink;
 mod textutil;
 
 use run::{Monitor, Tier};
@@ -37,6 +38,66 @@ fn real_main(args: &[String]) -> i32 {
         return 2;
     }
     match args[1].as_str() {
+        "render" => {
+            // vmon render <deco>[+opt...] <width>   (HTML on stdin; debugging aid)
+            use std::io::Read;
+            let spec = args.get(2).cloned().unwrap_or_else(|| "plain".into());
+            let width: usize = args.get(3).and_then(|s| s.parse().ok()).unwrap_or(80);
+            let mut parts = spec.split('+');
+            let deco = match parts.next().unwrap_or("plain") {
+                "rich" => exec::Deco::Rich,
+                "trivial" => exec::Deco::Trivial,
+                "plain_nd" => exec::Deco::PlainNoDecorate,
+                "custom" => exec::Deco::Custom(exec::CustomSpec::ascii()),
+                _ => exec::Deco::Plain,
+            };
+            let mut cfg = exec::Cfg::new(deco);
+            for p in parts {
+                let (k, v) = match p.split_once('=') {
+                    Some((k, v)) => (k, Some(v)),
+                    None => (p, None),
+                };
+                let n = v.and_then(|x| x.parse::<usize>().ok());
+                match k {
+                    "overflow" => cfg.overflow = true,
+                    "pad" => cfg.pad = true,
+                    "raw" => cfg.raw = true,
+                    "noborders" => cfg.no_borders = true,
+                    "nolinkwrap" => cfg.no_link_wrap = true,
+                    "decorate" => cfg.decorate = true,
+                    "doccss" => cfg.use_doc_css = true,
+                    "min" => cfg.min_wrap = n,
+                    "max" => cfg.max_wrap = n,
+                    "footnotes" => cfg.footnotes = Some(v != Some("false")),
+                    "strikeout" => cfg.strikeout = Some(v != Some("false")),
+                    "css" => cfg.css.push((exec::Origin::User, v.unwrap_or("").to_string())),
+                    "agentcss" => cfg.css.push((exec::Origin::Agent, v.unwrap_or("").to_string())),
+                    _ => eprintln!("unknown option {}", k),
+                }
+            }
+            let mut input = Vec::new();
+            std::io::stdin().read_to_end(&mut input).unwrap();
+            exec::install_panic_hook();
+            if spec.contains("lines") || matches!(cfg.deco, exec::Deco::Rich) {
+                match exec::render_lines(&cfg, &input, width) {
+                    exec::Outcome::Ok(ls) => {
+                        for l in ls {
+                            println!("{:?}", l);
+                        }
+                    }
+                    o => println!("{}", o.kind()),
+                }
+            }
+            let t = exec::render_string_traced(&cfg, &input, width);
+            match &t.out {
+                exec::Outcome::Ok(s) => print!("{}", s),
+                o => println!("{}", o.kind()),
+            }
+            for e in t.events.iter().filter(|e| matches!(e, exec::Event::TableLayout { .. })) {
+                eprintln!("{:?}", e);
+            }
+            0
+        }
         "list" => {
             for m in registry() {
                 println!("{} {}", m.id, m.title);
